@@ -250,7 +250,8 @@ func sendVersionMutations(ch chan []byte, uuid, dataID dvid.UUID) (numMutations 
 		if typeID != jsonMsgTypeID {
 			dvid.Criticalf("Unknown message type in mutation log: %s\n", string(jsondata))
 		} else {
-			ch <- jsondata
+			// the reader reuses its buffer for the next record, and the channel is buffered
+			ch <- append([]byte(nil), jsondata...)
 		}
 		numMutations++
 	}
